@@ -65,6 +65,13 @@ func prefixObjs(startID int) []*Obj {
 			&Obj{ID: id + 1, Kind: KService, NS: k[0], NM: k[1], RV: "1", Labels: Map{{1, 1}}, Spec: SService, Sel: Map{{1, 1}}})
 		id += 2
 	}
+	// pods on nodes whose names share a first label; events about objects
+	// whose kinds differ only in the case of a letter
+	for i, node := range []int{StrCasea, StrDotX, StrDotY, StrCaseA} {
+		r = append(r, &Obj{ID: id, Kind: KPod, NS: 1, NM: 1 + i, RV: "1", Spec: SPod, Node: node},
+			&Obj{ID: id + 1, Kind: KEvent, NS: 1, NM: 5 + i, RV: "1", Spec: SEvent, IKind: node, INS: 1, INM: 1})
+		id += 2
+	}
 	return r
 }
 
@@ -233,6 +240,12 @@ func typedAtoms() []*Filt {
 		{Tag: FInvolved, K: 0, NS: 1, NM: 1}, // an object that carries no kind: matches events about an object without kind only
 		{Tag: FInvolved, K: 1, NS: 0, NM: 1}, // a cluster-scoped object
 		{Tag: FInvolved, K: 0, NS: 0, NM: 2},
+		// kinds that differ only in the case of a letter; node names that share a first label
+		{Tag: FInvolved, K: StrCaseA, NS: 1, NM: 1},
+		{Tag: FInvolved, K: StrCasea, NS: 1, NM: 1},
+		{Tag: FNode, Names: []int{StrDotX}},
+		{Tag: FNode, Names: []int{StrCasea}},
+		{Tag: FNode, Names: []int{StrDotY, StrDotX}},
 		{Tag: FSelectorMatch, Map: nil},
 		{Tag: FSelectorMatch, Map: Map{{1, 1}}},
 		{Tag: FSelectorMatch, Map: Map{{1, 1}, {2, 2}}},
@@ -1000,6 +1013,7 @@ func runC19(c *Ctx) {
 	})
 	// node / involved / selector-match
 	others := append(otherKinds(5000), pods...)
+	others = append(others, prefixObjs(5500)...)
 	var typed []*Filt
 	for _, f := range typedAtoms() {
 		if f.Tag == FNode || f.Tag == FInvolved || f.Tag == FSelectorMatch {
